@@ -21,7 +21,7 @@
 //@ check w_c10_registry   kind=bounded bound=7-scripts-over-3-statement-ids fn=run_on
 //@ check w_c11_handshake  kind=bounded bound=4.1-and-3.20-layouts,5-user-names,accept-and-reject,pipelined,TLS-request-without-offer fn=run_on
 //@ check w_c12_flush      kind=bounded bound=pipelining-with-every-split-point-of-a-3-command-stream fn=run_on
-//@ check w_c13_errors     kind=bounded bound=all-defined-codes,4-messages,4-reporting-sites fn=run_on
+//@ check w_c13_errors     kind=bounded bound=all-defined-codes,4-messages,4-reporting-sites,messages-around-the-16-MiB-packet-limit fn=run_on
 //@ check w_c14_counts     kind=bounded bound=12-u64-boundary-values-squared,zero-column-row-counts-0..=3,300 fn=run_on
 //@ check w_c15_ints       kind=bounded bound=12-integer-columns(6-types-x-signedness),4-boundary-classes-via-generic-values,1-row-via-fixed-width-types fn=run_on
 //@ check w_c16_c17_stmt   kind=bounded bound=6-scripts-of-executions-and-long-data-over-2-statements fn=run_on
@@ -367,6 +367,12 @@ impl TShim {
             "ok" => results.completed(num(parts[1]), num(parts[2])),
             "err" => results.error(ErrorKind::from(num(parts[1]) as u16), parts[2].as_bytes()),
             "errraw" => results.error(ErrorKind::ER_YES, &[0x23u8, 0x00, 0xff, 0x41][..]),
+            "errbig" => {
+                // errbig:<n>: a message of n bytes (an ERR packet is a message like any other: it may span packets)
+                let n = num(parts[1]) as usize;
+                let msg: Vec<u8> = (0..n).map(|k| b'a' + (k % 26) as u8).collect();
+                results.error(ErrorKind::ER_NO, &msg[..])
+            }
             "rs" => {
                 // rs:<ncols>:<nrows>
                 let (nc, nr) = (num(parts[1]) as usize, num(parts[2]) as usize);
@@ -1058,6 +1064,14 @@ fn w_c13_errors() {
     }
     let (_r, m) = one(b"errraw");
     assert!(matches!(parse_err(&m[1].2), Some(Resp::Err { code: 1003, msg, .. }) if msg == vec![0x23, 0x00, 0xff, 0x41]), "[C13.w.msg] message bytes altered");
+    for n in [MAXP - 10, MAXP - 9, MAXP - 8, MAXP + 5] {
+        let (r, m) = one(format!("errbig:{}", n).as_bytes());
+        assert!(r.result.is_ok(), "[C13.w.run] error with a {}-byte message failed: {:?}", n, r.result);
+        match parse_err(&m[1].2) {
+            Some(Resp::Err { code: 1002, msg, .. }) => assert!(msg.len() == n && msg.iter().enumerate().all(|(k, b)| *b == b'a' + (k % 26) as u8), "[C13.w.msg] a {}-byte error message arrived with {} bytes", n, msg.len()),
+            _ => panic!("[C13.w.wire] no ERR packet for a {}-byte message", n),
+        }
+    }
     let (_r, m) = one(b"USE denied");
     assert!(matches!(parse_err(&m[1].2), Some(Resp::Err { code: 1044, msg, .. }) if msg == b"nope"), "[C13.w.init] init error not delivered");
     let r = converse(hs41(b"u", 0), &[(c_prepare(b"perr"), 0), quit()], vec![], false, None, None);
